@@ -70,6 +70,7 @@ type FuncContract struct {
 	Unroll     int
 	Notes      []string
 	Atomic     bool
+	NoAuto     bool
 	Holds      []string // monitors held on entry (requires held)
 	DeclPkg    string   // package of the contract file that declares it (name resolution scope)
 	Decreases  []Clause // termination measure for recursive calls
@@ -400,6 +401,9 @@ func parseClause(fc *FuncContract, s, src string, resolve func(string) string) e
 		fc.Recover = true
 	case "atomic":
 		fc.Atomic = true
+	case "noauto":
+		// every loop of the function carries its own invariants: no candidate invariants are guessed
+		fc.NoAuto = true
 	case "mode":
 		fc.Mode = rest
 	case "unroll":
